@@ -26,6 +26,21 @@ CHECKS = {
             "Exhaustive over all 32-bit values for the default layouts and a grid of others (incl. l*Bgbit=32, Bgbit=2); random/boundary generation for the remaining layouts, lane positions and the TLWE wrapper.",
             "N restricted to multiples of the vector width (the routine is only called with the ring degree). Out-of-bounds detection for the inline assembly rests on guard pages/canaries, which see page-crossing or slack writes only.",
             "DESIGN.md §3 C12"),
+    "C03": ("exploration", "E1+E2",
+            "rapidcheck encrypt/decrypt round trips over schemes, dimensions, message spaces (any integer up to 2^20, powers of two to 2^30), noise classes up to the 10-sigma maximum; exhaustive messages for Msize<=64",
+            "Generated round trips with an exact equality oracle over all five back-ends and both builds; exhaustive over messages for small message spaces.",
+            "N=1024 only for TLWE/TGSW (the back-ends instantiate no other degree); the maximal noise leaves a 10-sigma margin so a false alarm has probability ~1e-23 per sample.",
+            "DESIGN.md §3 C03"),
+    "C10": ("exploration", "E1+E2",
+            "structured worst-case grid + rapidcheck over (operation, coefficient bound, integer shape, torus shape, accumulated terms) against an exact 64-bit schoolbook product, all five back-ends x both builds, forked cases on debug builds",
+            "Every combination of operation, magnitude and structured shape is enumerated on every back-end and build; random seeds and accumulation lengths are generated. Errors are compared with the property's own bound.",
+            "Ring degree 1024 only. Worst observed errors are reported so the distance to the bound is visible.",
+            "DESIGN.md §3 C10"),
+    "C14": ("exploration", "E1+E2",
+            "rapidcheck over LWE/TLWE linear operations with exact integer phase oracle, guard-page mask buffers and forked cases; exhaustive n grid and exhaustive extraction index",
+            "Generated operations, dimensions (every n in 1..40 and the listed large ones), scalars incl. INT32_MIN, keys and contents with an exact phase-linearity oracle; exhaustive over the extraction index for every power-of-two N<=1024 and k<=3.",
+            "Guard pages detect out-of-bounds accesses of the inline assembly only when they leave the array into the slack or the adjacent page.",
+            "DESIGN.md §3 C14"),
 }
 
 ALL = ["C%02d" % k for k in range(1, 21)]
